@@ -22,7 +22,7 @@
  *   Body <accept|created|msg|closed|destroyed> <conn> <nth|0> op ; op ; ...
  *   top-level ops: CConnect k | CContinue k | CSend k n | CRecv k | CDisc k | Fork k mode nmsg | Wait k | Kill k
  *                  Step | Jobs | Drain | and every body op
- *   body ops:      Disconnect c | Ref c | Unref c | Resp c | Event c | Stats self (destroyed only) | IterFirst | IterNext | UnrefPrev | UnrefCur
+ *   body ops:      Kill k | Disconnect c | Ref c | Unref c | Resp c | Event c | Stats self (destroyed only) | IterFirst | IterNext | UnrefPrev | UnrefCur
  *                  SvcRef | SvcUnref | RateLimit rl | SvcDestroy (top level only)
  *   c = self | ordinal.  Ops the application has no right to make (no handle, no reference to drop) are not executed.
  */
@@ -453,6 +453,12 @@ static void exec_op(struct vt_line *L, int t0, int n, struct conn *self)
 		qb_ipcs_request_rate_limit(svc, (enum qb_ipcs_rate_limit)k);
 	} else if (!strcmp(op, "SvcDestroy")) {
 		do_svc_destroy();
+	} else if (!strcmp(op, "Kill")) {
+		/* also inside a callback: the client process dies while the server is busy with it (e.g. in connection_accept,
+		 * between the server reading the connect request and writing the answer) */
+		if (k < 0 || k >= MAXK || !cl[k].pid) return;
+		kill_child(&cl[k]);
+		env("Kill", k, 0);
 	} else if (cb_depth) {
 		fprintf(stderr, "h_ipc_life: op %s not allowed inside a callback\n", op); exit(2);
 	} else if (!strcmp(op, "Step")) {
@@ -516,10 +522,6 @@ static void exec_op(struct vt_line *L, int t0, int n, struct conn *self)
 		for (int r = 0; r < 400 && !b; r++) { step(); b = child_wait_byte(&cl[k], 5); if (b == 'A') b = 0; }
 		cl[k].reported = b;
 		env("Wait", k, b);
-	} else if (!strcmp(op, "Kill")) {
-		if (k < 0 || k >= MAXK || !cl[k].pid) return;
-		kill_child(&cl[k]);
-		env("Kill", k, 0);
 	} else {
 		fprintf(stderr, "h_ipc_life: unknown op %s\n", op); exit(2);
 	}
